@@ -274,13 +274,13 @@ theorem pyConstraint_upper_validate_partial (E : Env) (X Y Z : Nat) (hE : EnvPy 
 
 /-- **exactness against poetry's own `validate`** for python-only markers: `validate` returns exactly
 `allows(X.Y.Z)` of the range.  That the DNF mentions python variables only is now proved (`dnf_vars`: the
-simplifier mentions no new variable, relative to `S` and the leaf-level fact `ReparseNames`). -/
+simplifier mentions no new variable, relative to `S`). -/
 theorem pyConstraint_exact_validate_partial (E : Env) (X Y Z : Nat) (hE : EnvPy E X Y Z)
     (S : LeafSpec (leafEval E) (PyG E)) (m : M) (g : VC) (hg : M.Good (PyG E) m)
-    (hvars : ∀ n ∈ M.vars m, pyNames.contains n = true) (HR : ReparseNames)
+    (hvars : ∀ n ∈ M.vars m, pyNames.contains n = true)
     (hne : ∀ d, dnf defaultFuel [] m = .ok d → d ≠ .empty)
     (h : gpc m = .ok g) : M.validate E m = .ok (g.allowsPlain (pyV X Y Z)) :=
-  gpc_exact_validate E X Y Z hE S m g hg hvars HR hne h
+  gpc_exact_validate E X Y Z hE S m g hg hvars hne h
 
 /-- **conjunctions with `in` lists**: every pair contributes its alternatives (one clause for a comparison, one
 `X.Y.*` per listed version for `in`), and the conjunction is printed as all choices of one alternative per pair, in
@@ -304,10 +304,10 @@ theorem pyConstraint_upper_validate_lists_partial (E : Env) (X Y Z : Nat) (hE : 
 /-- **exactness against `validate` for python-only markers, `in` lists included** -/
 theorem pyConstraint_exact_validate_lists_partial (E : Env) (X Y Z : Nat) (hE : EnvPy E X Y Z)
     (S : LeafSpec (leafEval E) (PyGL E)) (m : M) (g : VC) (hg : M.Good (PyGL E) m)
-    (hvars : ∀ n ∈ M.vars m, pyNames.contains n = true) (HR : ReparseNames)
+    (hvars : ∀ n ∈ M.vars m, pyNames.contains n = true)
     (hne : ∀ d, dnf defaultFuel [] m = .ok d → d ≠ .empty)
     (h : gpc m = .ok g) : M.validate E m = .ok (g.allowsPlain (pyV X Y Z)) :=
-  gpc_exact_validate_lists E X Y Z hE S m g hg hvars HR hne h
+  gpc_exact_validate_lists E X Y Z hE S m g hg hvars hne h
 
 /-- the invariant `PyG` on a concrete leaf: `python_version >= "3.8"` on CPython 3.8.1 -/
 example : PyG env381 (.single ⟨"python_version", ">=", "3.8", false, .ver (.single (.rng ⟨some (v [3, 8]), none, true, false⟩))⟩) :=
